@@ -11,6 +11,10 @@ def scen(w, **kw):
 
 SCENARIOS = {}
 
+
+def scen_ind(w, start="outside", kinds="r"):
+    rt.ind_step(w, "C04", start, kinds)
+
 META = {
     "assumptions": [
         "floats modelled as reals; absolute extrusion mode; logger stubbed; numbers through numeric-key literals",
@@ -28,14 +32,25 @@ def plan(tier):
 
     def add(name, **params):
         SCENARIOS[name] = scen
-        roles = params.get("roles", ",".join(rt.ROLES_FW if params.get("firmware") else rt.ROLES_E)).split(",")
+        roles = params.get("sequence") or params.get("roles", ",".join(rt.ROLES_FW if params.get("firmware") else rt.ROLES_E))
+        roles = sorted(set(roles.split(",")))
         out.append(Scenario(name, scen, params=params,
                             cover=["role-" + r for r in roles] + ["episode-open", "filter-synthesised-commands"],
                             bounds=dict(params, roles=roles), excludable=rt.EXCLUDABLE))
     add("e-only-k3", K=3, firmware=0, kinds="rd")
-    add("e-only-k5-core", K=5, firmware=0, kinds="r", roles="RET,REC,PRINT,TRAVEL,TRAVELE")
+    if tier == "thorough":
+        add("e-only-k5-core", K=5, firmware=0, kinds="r", roles="RET,REC,PRINT,TRAVEL,TRAVELE")
+    add("e-only-k4-core", K=4, firmware=0, kinds="r", roles="RET,REC,PRINT,TRAVEL,TRAVELE")
     add("e-only-k4-spelling", K=4, firmware=0, kinds="r", roles="PRINTDOT,TRAVEL,RET,REC")
+    add("owed-cycle-k7", firmware=0, kinds="r", sequence="RET,TRAVEL,REC,TRAVEL,RET,REC,PRINT")
     add("firmware-k4", K=4, firmware=1, kinds="r", roles="FRET,FREC,FRET1,FREC1,PRINT,TRAVEL")
+    for start in ("outside", "inside"):
+        SCENARIOS["ind-" + start] = scen_ind
+        out.append(Scenario("ind-" + start, scen_ind, params={"start": start, "kinds": "r" if tier == "quick" else "rd"},
+                            cover=["role-" + r for r in rt.IND_ROLES] + ["class-%d-%s" % (c, start) for c in range(3)],
+                            bounds={"K": "1 step from an arbitrary invariant state (all history lengths)",
+                                    "roles": rt.IND_ROLES, "retraction style": "E-only"},
+                            excludable=rt.EXCLUDABLE + ["exit_while_xyz_relative"]))
     if tier == "thorough":
         add("e-only-k4", K=4, firmware=0, kinds="rd")
         add("firmware-k4-all", K=4, firmware=1, kinds="r")
